@@ -218,6 +218,31 @@ class SymInt:
     def __format__(self, spec):
         return format_token(self, spec)
 
+    def to_bytes(self, length=1, byteorder="big", *, signed=False):
+        from .symbytes import mkbytes
+        length = length.__index__()
+        bits = 8 * length
+        lo, hi = (-(1 << (bits - 1)) if bits else 0, (1 << (bits - 1)) - 1 if bits else 0) if signed \
+            else (0, (1 << bits) - 1)
+        if not signed and bool(self < 0):
+            raise OverflowError("can't convert negative int to unsigned")
+        if not bool((self >= lo) & (self <= hi)):
+            raise OverflowError("int too big to convert")
+        items = []
+        for i in range(length):
+            if self.lo >= 0 and self.hi < (1 << (8 * i)):
+                items.append(0)
+            else:
+                items.append(SymInt(z3.ZeroExt(W - 8, z3.Extract(8 * i + 7, 8 * i, self.t)), 0, 255))
+        if byteorder == "big":
+            items.reverse()
+        elif byteorder != "little":
+            raise ValueError("byteorder must be either 'little' or 'big'")
+        return mkbytes(items)
+
+    def bit_length(self):
+        raise Unsupported("bit_length of symbolic int")
+
     # ---- arithmetic --------------------------------------------------------------
     def __add__(self, o):
         b = _lift(o)
